@@ -711,6 +711,10 @@ func (s *c19Scn) signal() error {
 	}
 	s.mu.Unlock()
 	if fail {
+		if n%2 == 1 {
+			// what the real reloadConfig returns while the reloader's pid file is not there yet
+			return &os.PathError{Op: "open", Path: "/var/run/frr_reloader.pid", Err: os.ErrNotExist}
+		}
 		return errors.New("c19: injected reload failure")
 	}
 	return nil
